@@ -7,18 +7,17 @@ CONSTANTS
   HMatches <- MC_HMatches
   DispatchPolicy = "min_id"
   None = None
-  IntentSet = {"AB1", "B1", "N1"}
-  EventSet = {"B1"}
-  SeqNos = {7}
-  Mode = "graph"
+  IntentSet = {"AB1", "E"}
+  EventSet = {"E"}
+  SeqNos = {1, 2}
+  Mode = "beh"
   MidTx = TRUE
   UseDrainAll = TRUE
-  MaxRetry = 0
-  MaxTx = 0
-  MaxAbort = 0
-  MaxDrainAll = 0
+  MaxRetry = 1
+  MaxTx = 2
+  MaxAbort = 1
+  MaxDrainAll = 1
   Export = TRUE
-VIEW MC_View
-INVARIANTS GraphWellFormed PendingIsSet LedgerPartition AtMostOnce ConsumedInCanonicalOrder HandledExactlyOnce LogSound LegacyIngressBlocksFresh TicksSound DrainIsFunctionOfSet
+INVARIANTS GraphWellFormed PendingIsSet LedgerPartition AtMostOnce ConsumedInCanonicalOrder HandledExactlyOnce LogSound LegacyIngressBlocksFresh TicksSound DrainIsFunctionOfSet Inv_Export
 PROPERTIES RetryChangesNothing IngestLaw DispatchPicksMin OnlyCommitConsumes
 CHECK_DEADLOCK FALSE
